@@ -173,9 +173,11 @@ fn replace(node: xml_dom::XmlNode, value: &str) -> Result<(), Box<dyn Error>> {
             clear_child(v.clone())?;
             append_child(v, value)?;
         }
-        xml_dom::XmlNode::Attribute(v) => {
-            clear_child(v.clone())?;
-            append_child(v, value)?;
+        xml_dom::XmlNode::Attribute(mut v) => {
+            // The value is written as a literal: a character reference stays one (a literal line
+            // feed would be read back as a space).
+            let literal = attribute_literal(value)?;
+            v.set_value(literal.as_str())?;
         }
         xml_dom::XmlNode::Element(v) => {
             clear_child(v.clone())?;
@@ -187,6 +189,29 @@ fn replace(node: xml_dom::XmlNode, value: &str) -> Result<(), Box<dyn Error>> {
     }
 
     Ok(())
+}
+
+/// The replacement as the literal of an attribute value: text and references only.
+fn attribute_literal(value: &str) -> Result<String, Box<dyn Error>> {
+    let new_value = parse_node(value)?;
+
+    let mut literal = String::new();
+    for child in new_value.child_nodes().iter() {
+        match child {
+            xml_dom::XmlNode::Text(v) => literal.push_str(v.data()?.replace('"', "&quot;").as_str()),
+            xml_dom::XmlNode::EntityReference(v) => {
+                let name = v.node_name();
+                if name.starts_with("&#") {
+                    literal.push_str(name.as_str());
+                } else {
+                    literal.push_str(format!("&{};", name).as_str());
+                }
+            }
+            _ => return Err("Not supported XML node type.".into()),
+        }
+    }
+
+    Ok(literal)
 }
 
 /// The value of an attribute as a literal that is read back as the same value.
